@@ -42,6 +42,8 @@ class TimerSpec(nfa.Spec):
                 return nfa.Err("R10.1: a one-shot timer sleeps again")
             if ph == "submitting":
                 return nfa.Err("R10.1: sleeps again before the pending submit completed")
+            if ph == "unchecked" and self.periodic:
+                return nfa.Err("R10.1: sleeps again without having looked at the outcome of the submit (a timer whose actor is gone must end)")
             return ("sleeping", n)
         if ev == "done:sleep":
             return ("slept", n) if ph == "sleeping" else st
@@ -56,10 +58,12 @@ class TimerSpec(nfa.Spec):
                 return nfa.Err("R10.1: a one-shot timer fires more than once")
             return ("submitting", min(n + 1, 2))
         if ev == "done:submit":
-            return ("submitted", n) if ph == "submitting" else st
-        if ev in ("bool:is_err=1", "bool:is_ok=0") or (ev == "sw:Res::Err" and src == "submit"):
+            return ("unchecked", n) if ph == "submitting" else st
+        # the outcome that is looked at must be the submit's own (`@submit`): a helper that swallows the error and hands
+        # back a constant Ok gives the timer nothing to end on
+        if (ev in ("bool:is_err=1", "bool:is_ok=0") or ev == "sw:Res::Err") and src == "submit":
             return ("ending", n)
-        if ev in ("bool:is_err=0", "bool:is_ok=1") or (ev == "sw:Res::Ok" and src == "submit"):
+        if (ev in ("bool:is_err=0", "bool:is_ok=1") or ev == "sw:Res::Ok") and src == "submit":
             return ("submitted", n)
         if ev == "ret":
             if self.periodic and ph != "ending":
@@ -91,11 +95,15 @@ def check_cfg(ctx, fx, cfg):
     A = nfa.Alphabet(
         calls=[("sleep", nfa.trait_method(timers.T_SPAWNF, "sleep")), ("submit", is_submit), ("is_err", nfa.callee_ends("::is_err")), ("is_ok", nfa.callee_ends("::is_ok"))],
         adts={"core::result::Result": "Res"}, bools={"is_err", "is_ok"}, fut_types=[("core::pin::Pin<&mut F>", "userfut")])
+    A.bool_srcs = True
     seen = set()
     for f in tcs:
         crs = timers.creations(fx, f)
-        b = ctx.body(fx, f)
-        n = nfa.build(b, A, fx, depth=2)  # the submit may sit in a small awaited helper (`self_send.send_next().await`)
+        # the submit may sit in a small awaited helper (`self_send.send_next().await`): the automaton is built from the body
+        # with crate-private helpers inlined, so that the outcome the loop looks at can be traced to the submit
+        import inline
+        b = inline.body(ctx, fx, f, inline.not_public)
+        n = nfa.build(b, A)
         # one body may serve several public APIs, told apart by a constant it captures (`Schedule::Once` / `Repeatedly`):
         # each (API, constants) instance is followed on its own
         insts = timers.creation_instances(fx, f) or [(fx.fn(f.get("parent") or "") or f, None, {})]
@@ -140,10 +148,14 @@ def check_cfg(ctx, fx, cfg):
                 src_ok = False
                 if ok:
                     idx = next(iter(rs)).site
-                    src_ok = bool(crs)
+                    fpath = [e for e in next(iter(rs)).proj if e != "*" and not str(e).startswith("<part:")]
+                    src_ok = bool(crs) and len({(r.site, tuple(e for e in r.proj if e != "*")) for r in rs}) == 1
                     for cr in crs:
                         one = False
-                        for o in (cr.body.origins(cr.caps[idx]) if idx in cr.caps else ()):
+                        cap = cr.caps.get(idx)
+                        if cap is not None and fpath and cap.get("k") in ("move", "copy"):
+                            cap = dict(cap, p=list(cap["p"]) + fpath)  # a field of a captured struct (`SelfSend { myself, message_fn }`)
+                        for o in (cr.body.origins(cap) if cap is not None else ()):
                             if o.kind == "call":
                                 ct = cr.body.call_at(o)
                                 if ct.get("callee") == "context::Context::<A>::weak_sender" and all(r.kind == "arg" for r in roots(cr.body, ct["args"][0])):
